@@ -405,7 +405,7 @@ func c19Run(r *ev.Run, id string, h c19Hist, cls c17Classes) (evals int64, trace
 
 func init() {
 	register("C19", "exploration", func(r *ev.Run) {
-		nHist := r.Pick(20000, 500000)
+		nHist := r.Pick(20000, 5000000)
 		const chunk = 100
 		nChunks := (nHist + chunk - 1) / chunk
 		only := r.Only()
